@@ -57,6 +57,10 @@ def gen_params(rng):
         "het_prob": rng.choice([0.5, 0.8]),
         "with_pl": ped != [] and rng.random() < 0.3,
     }
+    if rng.random() < 0.35:
+        # dense variants, short mates far apart, few fragments: mutually interleaved and nested components
+        p.update({"n_var": rng.randint(15, 40), "kinds": ["snv"], "chrom_len": 2000, "paired": 1.0, "mate_len": (31, 45),
+                  "read_len": rng.choice([(150, 500), (300, 900)]), "depth": rng.choice([0.3, 0.6, 1, 2]), "error_rate": 0.0})
     opts = {
         "reference": rng.choice(["FASTA", False]),
         "tag": rng.choice(["PS", "HP"]),
